@@ -748,5 +748,16 @@ pub fn replay(r: &serde_json::Value) {
     all.extend(systems(&mon3, 0, true));
     all.push(interval_system(&mon2, 0));
     all.push(interval_system(&mon2, 65533));
+    all.push(interval_system(&mon2, 65530));
+    for la in [-3i8, 2, 4] {
+        all.push(interval_system_at(&mon2, 0, la));
+    }
+    let mon_sib = QualMon { own_peer: vec![2, 3], rank: vec![Some(2), Some(4), None, None, Some(3)] };
+    all.push(sibling_system(&mon_sib));
+    let mut so = interval_system(&mon2, 65530);
+    so.cfg.node.slave_only = true;
+    so.cfg.node.ports[0].receipt_timeout = 10;
+    so.name = format!("{}-slaveonly", so.name);
+    all.push(so);
     replay_world(&all, r);
 }
